@@ -4,7 +4,6 @@ import (
 	"fmt"
 	"math"
 	"math/big"
-	"os"
 
 	"github.com/tuneinsight/lattigo/v6/core/rlwe"
 	"github.com/tuneinsight/lattigo/v6/schemes/ckks"
@@ -908,7 +907,7 @@ func (s *st) setScale(a *ent, target *big.Float, cls string) (res *ent, skipped 
 	s0, l0 := a.scale(), a.level()
 	ratio := q128(target, s0)
 	ex := &expect{op: "SetScale", logSlots: a.logSlots(), depth: a.depth, uneq: true, want: a.want, deg: a.deg(), scale: fB(target)}
-	if flog2(target) < 12 {
+	if flog2(target) < 12 || l0 == 0 { // documented: "consumes a level"
 		return nil, true
 	}
 	readSlack := math.Ldexp(a.mag+a.E, 1-int(s.encPrec)) // the ratio is a scalar read at EncodingPrecision bits
@@ -1206,14 +1205,6 @@ func (s *st) userDecode(e *ent, kind string) {
 			got[i].im = fnew()
 		}
 		d, at = maxDiff(got, want)
-	}
-	if os.Getenv("C06_DEBUG") != "" && !(d <= bound*(1+1e-9)+1e-300) {
-		full := s.decodeFull(e.ct)
-		for j := 0; j < 4 && j < len(full); j++ {
-			fmt.Fprintf(os.Stderr, "userDecode dbg slot %d full=%v want=%v\n", j, full[j], e.want[j])
-		}
-		cf := s.coeffsOf(pt.El())
-		fmt.Fprintf(os.Stderr, "c0=%v cN/2=%v scale=%v lib=%v\n", cf[0], cf[s.N/2], pt.Scale.Value.Text('g', 40), got[0])
 	}
 	if !(d <= bound*(1+1e-9)+1e-300) {
 		sk := kind
